@@ -342,6 +342,10 @@ where
 
 struct HmcSupport;
 impl Scenario for HmcSupport {
+    fn recheckable(&self, p: &Value) -> bool {
+        // f32 gradients of the NdArray backend are not repeatable bit for bit (see Scenario::recheckable)
+        ps(p, "float") != "f32"
+    }
     fn name(&self) -> &'static str {
         "hmc_bounded_support"
     }
@@ -464,6 +468,10 @@ where
 
 struct NutsSupport;
 impl Scenario for NutsSupport {
+    fn recheckable(&self, p: &Value) -> bool {
+        // f32 gradients of the NdArray backend are not repeatable bit for bit (see Scenario::recheckable)
+        ps(p, "float") != "f32"
+    }
     fn name(&self) -> &'static str {
         "nuts_bounded_support"
     }
